@@ -14,7 +14,7 @@ LEVEL = "exploration"
 VARIANTS = ("omp",)
 CASE_TIMEOUT = 1200
 RULE = ("kind eos: 3 EOS x random parameter sets (B0 5..400 GPa, B0' 2..8, V0 10..500 A^3): E(V0)=E0, E'(V0)=0, V0 E''(V0)=B0, -(V/B) dB/dV=B0'; "
-        "kind qha: 3 EOS x parameter sets x volume grids (5..15 points, +-3..10 %) x pressures {0, +-5, 30 GPa} x electronic energies of shape (V) or (T,V) x t_max choices: "
+        "kind qha: 3 EOS x parameter sets x volume grids (5..15 points, +-3..10 %) x pressures {0, +-5, 30 GPa} x electronic energies of shape (V) or (T,V) x t_max choices x temperature grids (equal steps | ascending unequal steps): "
         "V0(T), Gibbs energy, B0(T), thermal expansion and numerical C_P vs the documented finite differences of the known functions; BulkModulus class; "
         "non-trivial = parameters move with temperature (qha) / all four identities evaluated (eos); distinct = parameter tuple")
 ASSUMPTIONS = ["scipy (leastsq) comes from the offline wheelhouse into /verif/.deps", "fit tolerance 1e-7 relative (exact-EOS data, so the least-squares minimum is the generating parameter set)"]
@@ -31,7 +31,7 @@ def gen_cases(tier, seed):
     for i in range(60 if tier == "quick" else 500):
         cases.append({"kind": "qha", "eos": EOSS[i % 3], "E0": float(rng.uniform(-50, 5)), "B0_GPa": float(10 ** rng.uniform(np.log10(20), np.log10(300))), "Bp": float(rng.uniform(3, 6)),
                       "V0": float(10 ** rng.uniform(1, np.log10(300))), "nvol": int(rng.integers(5, 16)), "spread": float(rng.uniform(0.03, 0.10)),
-                      "pressure": [None, 0.0, 5.0, -5.0, 30.0][rng.integers(5)], "el2d": bool(rng.integers(2)), "tmax_mode": ["none", "mid"][rng.integers(2)],
+                      "pressure": [None, 0.0, 5.0, -5.0, 30.0][rng.integers(5)], "el2d": bool(rng.integers(2)), "tmax_mode": ["none", "mid"][rng.integers(2)], "tgrid": ["uniform", "nonuniform"][rng.integers(2)],
                       "alpha": float(rng.uniform(1e-5, 8e-5)), "a2": float(rng.uniform(1e-7, 2e-6)), "cB": float(rng.uniform(1e-5, 2e-4)), "seed": int(rng.integers(10 ** 6)), "_cost": 3})
     return cases
 
@@ -87,7 +87,11 @@ def run_case(c):
     from phonopy import PhonopyQHA
 
     rng = np.random.default_rng(c["seed"])
-    T = np.arange(0, 1010, 50.0)
+    if c.get("tgrid", "uniform") == "uniform":
+        T = np.arange(0, 1010, 50.0)
+    else:  # ascending, unequal steps (denser at low T): the documented differences use the local steps
+        T = np.concatenate([[0.0], np.cumsum(rng.uniform(8, 40, 8)), ])
+        T = np.concatenate([T, T[-1] + np.cumsum(rng.uniform(40, 90, 12))])
     V0T = V0 * (1 + c["alpha"] * T + 1e-9 * T ** 2)
     E0T = E0 - c["a2"] * T ** 2
     B0T = B0 * (1 - c["cB"] * T)
@@ -107,7 +111,8 @@ def run_case(c):
     cv = 20.0 * (1 - np.exp(-T[:, None] / 300.0)) * np.ones_like(F)
     ent = 30.0 * (T[:, None] / 500.0) * np.ones_like(F)
     t_max = None if c["tmax_mode"] == "none" else float(T[len(T) // 2])
-    feat = dict(pressure=P, el2d=c["el2d"], nvol=c["nvol"], t_max=t_max)
+    feat = dict(pressure=P, el2d=c["el2d"], nvol=c["nvol"], t_max=t_max, tgrid=c.get("tgrid", "uniform"))
+    obs["tgrid_" + c.get("tgrid", "uniform")] = 1
     try:
         qha = PhonopyQHA(volumes=vols, electronic_energies=el, temperatures=T, free_energy=ph, cv=cv, entropy=ent, pressure=P, eos=c["eos"], t_max=t_max)
     except Exception as e:
